@@ -7,6 +7,7 @@ CONSTANTS
   Plus = "max"
   Times = "mul"
   LeafKind = "lin"
+  MaxParamT = 6
   Tag = "mk_maxmul"
 INVARIANT Inv_FoldInputs
 INVARIANT Emit
